@@ -11,6 +11,7 @@ import (
 	"go/parser"
 	"os"
 	"path/filepath"
+	"sort"
 	"strings"
 	"testing/fstest"
 
@@ -61,6 +62,11 @@ var stmts = []item{
 	{"iv=", "iv = p\nShow(\"iv\", iv.Sum())", []string{"iv", "p"}, ""},
 	{"closure", "f := func() int { return x * 2 }\nx = f()", []string{"x"}, ""},
 	{"bump2", "Show(\"bump\", bump(), bump())", []string{"bump"}, ""},
+	// statements that declare locals with the name of a global: they must shadow it, never overwrite it
+	{"shadow-in-block", "{\n\tx := 99\n\tx++\n\tShow(\"inner\", x)\n}", []string{"x"}, ""},
+	{"shadow-in-if", "if x := 77; x > 0 {\n\tShow(\"inner\", x)\n}", []string{"x"}, ""},
+	{"shadow-in-loop", "for x := 0; x < 2; x++ {\n\tShow(\"inner\", x)\n}", []string{"x"}, ""},
+	{"shadow-in-closure", "func() {\n\tx := 55\n\tShow(\"inner\", x)\n}()", []string{"x"}, ""},
 	// closures created by a loop of a top-level statement, called by later statements
 	{"loop-closures", "for i := 0; i < 3; i++ {\n\tfs = append(fs, func() int { return i * 10 })\n}", []string{"fs", "calls"}, ""},
 	{"range-closures", "for k, v := range []string{\"a\", \"bb\"} {\n\tfs = append(fs, func() int { return k*100 + len(v) })\n}", []string{"fs", "calls"}, ""},
@@ -487,12 +493,98 @@ func main() {
 	}
 	res := par.Map(len(runs), func(i int) *fail { return one(runs[i]) }, par.Opts{})
 	os.RemoveAll(filepath.Join(report.Root, ".work", "c11"))
+	// attribution to a minimal failing program of the same run: among the failing programs with the same mode and
+	// symptom, the smallest one whose declaration items and statement items are subsets of this program's
+	type progSet struct {
+		name         string
+		decls, stmts map[string]bool
+		size         int
+	}
+	mk := func(name string) progSet {
+		ps := progSet{name: name, decls: map[string]bool{}, stmts: map[string]bool{}}
+		d, st, _ := strings.Cut(name, " | ")
+		for _, x := range strings.Split(d, ",") {
+			if x != "" {
+				ps.decls[x] = true
+			}
+		}
+		for _, x := range strings.Split(st, ";") {
+			if x != "" {
+				ps.stmts[x] = true
+			}
+		}
+		ps.size = len(ps.decls) + len(ps.stmts)
+		return ps
+	}
+	// per class: programs in ascending size; a program is minimal when no earlier minimal program is a subset of it
+	byClass := map[string]map[string]progSet{}
+	for _, f := range res.Outs {
+		c := keyOf(f)
+		if byClass[c] == nil {
+			byClass[c] = map[string]progSet{}
+		}
+		if _, ok := byClass[c][f.R.P.Name]; !ok {
+			byClass[c][f.R.P.Name] = mk(f.R.P.Name)
+		}
+	}
+	attributed := map[string]map[string]string{} // class -> program -> minimal program
+	for c, progs := range byClass {
+		var all []progSet
+		for _, ps := range progs {
+			all = append(all, ps)
+		}
+		sort.Slice(all, func(i, j int) bool {
+			if all[i].size != all[j].size {
+				return all[i].size < all[j].size
+			}
+			return all[i].name < all[j].name
+		})
+		var minimals []progSet
+		attributed[c] = map[string]string{}
+		for _, me := range all {
+			found := ""
+			for _, cand := range minimals {
+				sub := true
+				for d := range cand.decls {
+					if !me.decls[d] {
+						sub = false
+						break
+					}
+				}
+				if sub {
+					for st := range cand.stmts {
+						if !me.stmts[st] {
+							sub = false
+							break
+						}
+					}
+				}
+				if sub {
+					found = cand.name
+					break
+				}
+			}
+			if found == "" {
+				minimals = append(minimals, me)
+				found = me.name
+			}
+			attributed[c][me.name] = found
+		}
+	}
+	minimal := func(f fail) string {
+		c := keyOf(f)
+		return c + " | " + attributed[c][f.R.P.Name]
+	}
 	for _, f := range res.Outs {
 		if strings.HasPrefix(f.Err, "HARNESS") {
 			r.HarnessError("%s", f.Err)
 			continue
 		}
-		r.Fail(report.Failure{Key: keyOf(f), What: fmt.Sprintf("%s mode=%s decl-cuts=%b stmt-cuts=%b: whole=%q piecewise=%q err=%s", f.R.P.Name, f.R.Mode, f.R.DMask, f.R.SMask, f.Want, f.Got, f.Err), Case: f})
+		key := keyOf(f)
+		if !strings.HasPrefix(f.R.Mode, "whole") {
+			key = minimal(f)
+		}
+		r.Fail(report.Failure{Key: key, What: fmt.Sprintf("%s mode=%s decl-cuts=%b stmt-cuts=%b: whole=%q piecewise=%q err=%s", f.R.P.Name, f.R.Mode, f.R.DMask, f.R.SMask, f.Want, f.Got, f.Err), Case: f})
 	}
 	for _, a := range res.Abnormal {
 		rr := runs[a.Idx]
@@ -519,7 +611,7 @@ func main() {
 	r.Set("distinct_nontrivial", len(res.Sets["outputs"]))
 	r.Set("whole_programs_rejected_runs", res.Counts["whole_program_rejected"])
 	r.Set("exhaustive", true)
-	r.Set("rule", fmt.Sprintf("programs = every dependency-closed subset of <= %d of 18 declaration items (define-before-use order) x every sequence of <= %d applicable statements + a final Show of all declared globals; every cut of the declaration section and of the statement section into consecutive chunks x {successive Eval, Compile+Execute, CompileAST+Execute}; whole program through Compile+Execute, CompileAST, EvalPath on disk and on MapFS; every cut of the declaration section written as the files of one package directory (file names in chunk order and in reverse chunk order, main in the last / first file) and loaded by EvalPath(dir) on disk and on MapFS; reference = Eval of the whole program in a fresh interpreter; states = distinct whole-program outputs", maxD, maxS))
+	r.Set("rule", fmt.Sprintf("programs = every dependency-closed subset of <= %d of 18 declaration items (define-before-use order) x every sequence (20 statement items, incl. blocks that shadow a global) of <= %d applicable statements + a final Show of all declared globals; every cut of the declaration section and of the statement section into consecutive chunks x {successive Eval, Compile+Execute, CompileAST+Execute}; whole program through Compile+Execute, CompileAST, EvalPath on disk and on MapFS; every cut of the declaration section written as the files of one package directory (file names in chunk order and in reverse chunk order, main in the last / first file) and loaded by EvalPath(dir) on disk and on MapFS; reference = Eval of the whole program in a fresh interpreter; states = distinct whole-program outputs", maxD, maxS))
 	r.Assumptions = []string{"a chunk is either declarations or statements (declarations precede statements); forward references across a cut are not demanded", "reference = the whole program evaluated once (C01 binds that to the compiler)"}
 	for _, i := range []int{0, len(runs) / 2, len(runs) - 1} {
 		r.Sample(map[string]interface{}{"program": runs[i].P.Name, "mode": runs[i].Mode, "decl_cuts": runs[i].DMask, "stmt_cuts": runs[i].SMask, "decls": runs[i].P.Decls, "stmts": runs[i].P.Stmts})
